@@ -129,6 +129,9 @@ func (r *run) note() {
 	c := r.ck
 	hx.Class(fmt.Sprintf("cfg/%s/client=%v/noflush=%v", r.cfg.Ctor, r.cfg.Client, r.cfg.NoFlush))
 	hx.Class(fmt.Sprintf("cfg/ext=%d", r.cfg.Ext))
+	if r.cfg.Spare > 0 {
+		hx.Class("cfg/buffer-with-spare-capacity")
+	}
 	if r.cfg.Default > 0 {
 		hx.Class(fmt.Sprintf("cfg/default-write-buffer-changed/%s", r.cfg.Ctor))
 	}
@@ -252,6 +255,10 @@ func exhaustiveConfigs() []wh.Config {
 		cs = append(cs, wh.Config{Ctor: "bufsize", N: 131, Client: client, Op: 1, Reuse: "reset", PrevClient: !client, PrevOp: 2, PrevUse: 3})
 		cs = append(cs, wh.Config{Ctor: "buffer", N: 7, Client: client, Op: 2, Reuse: "reset", PrevClient: !client, PrevOp: 9, PrevUse: 2 | 4})
 		cs = append(cs, wh.Config{Ctor: "get", N: 128, Client: client, Op: 1, Reuse: "pool", PrevClient: !client, PrevOp: 2, PrevUse: 1})
+		// caller-supplied slice with spare capacity behind it: two growth steps
+		// (Write 1, Grow a+1) take it across the 125/126 reservation threshold
+		// inside the caller's array
+		cs = append(cs, wh.Config{Ctor: "buffer", N: 100 + 7*m, Spare: 300, Client: client, Op: 2})
 		// default-size constructor with the application's own wsutil.DefaultWriteBuffer
 		cs = append(cs, wh.Config{Ctor: "new", Client: client, Op: 1, Default: 127 + m})
 	}
@@ -375,13 +382,16 @@ func TestThresholdSweep(t *testing.T) {
 			if raw < wh.MinRaw(client) {
 				continue
 			}
-			for _, v := range []int{0, 1, 2} { // flush on / flush off / flush on in a second life after use on the other side
+			for _, v := range []int{0, 1, 2, 3} { // flush on / flush off / flush on in a second life after use on the other side / flush on, spare capacity behind the slice
 				nf, reuse := v == 1, v == 2
 				if reuse && raw < 7 {
 					continue
 				}
 				for si, sc := range scripts {
 					cfg := wh.Config{Ctor: "buffer", N: raw, Client: client, Op: 2, NoFlush: nf}
+					if v == 3 {
+						cfg.Spare = raw + 100
+					}
 					if reuse {
 						cfg.Reuse, cfg.PrevClient, cfg.PrevOp, cfg.PrevUse = "reset", !client, 1, si%4
 					}
@@ -409,7 +419,7 @@ func TestThresholdSweep(t *testing.T) {
 	}
 	hx.EvalN(n)
 	checkKeys(t)
-	hx.Part("threshold sweep: raw 3..20, 120..140, 65530..65556 x side x {flush on, flush off, second life after Reset from the other side} x 23 boundary scripts", int64(n), true)
+	hx.Part("threshold sweep: raw 3..20, 120..140, 65530..65556 x side x {flush on, flush off, second life after Reset from the other side, spare capacity} x 23 boundary scripts", int64(n), true)
 }
 
 // TestWriteMessage: WriteMessage and its six variants send exactly one final
